@@ -26,22 +26,25 @@ Inductive point :=
   | PReadLoop    (* conns.go read loop: every non-nil generalized error prints *)
   | PPlain       (* conns.go: logger.Errorln(msg, generalizeErr(err)) — SetDeadline, GeoIP *)
   | PStats       (* proxies.go: generalizeErr(err).Error() stored in the tunnel statistics *)
+  | PStatsAsync  (* the same, written by the asynchronous source closer: the tunnel summary may be
+                    printed before that goroutine has stored the string, so "empty" is allowed too *)
   | PLib.        (* proxies.go / registration_ingest.go: printed through the lib's generalizeErr *)
 
 Definition expected (p : point) (e : eshape) : N :=
   match p with
   | PDiscard => let c := code (generalize Conns (Some e)) in if c =? 6 then 0 else c
   | PReadLoop | PPlain => code (generalize Conns (Some e))
-  | PStats | PLib => code (generalize Proxies (Some e))
+  | PStats | PStatsAsync | PLib => code (generalize Proxies (Some e))
   end.
 
 Definition expected_leak (p : point) (e : eshape) : bool :=
   match p with
   | PDiscard | PReadLoop | PPlain => match generalize Conns (Some e) with Some g => mentions g | None => false end
-  | PStats | PLib => match generalize Proxies (Some e) with Some g => mentions g | None => false end
+  | PStats | PStatsAsync | PLib => match generalize Proxies (Some e) with Some g => mentions g | None => false end
   end.
 
 (* case: point, injected shape, observed code, observed "address found in the captured text" *)
 Definition chk (c : point * jshape * N * bool) : bool :=
   let '(p, j, oc, ol) := c in
-  (expected p (dec j) =? oc) && Bool.eqb (expected_leak p (dec j)) ol.
+  ((expected p (dec j) =? oc) || (match p with PStatsAsync => oc =? 0 | _ => false end)) &&
+  Bool.eqb (expected_leak p (dec j)) ol.
